@@ -8,20 +8,109 @@ META = dict(
     design_ref='DESIGN.md section 4, C16',
     technique='Coq proof (refinement of the streaming MD5/SHA-1/HMAC/CBC objects to pad-then-fold specifications) + '
               'source-regenerated leaf functions and constant tables + extracted-model correspondence + independent oracle',
-    level_text=('Theorems in coq/C16/Props.v: the bundled MD5 and SHA-1 objects, fed any list of chunks (empty ones included; MD5 '
-                'chunks < 2^31 bytes), read out the RFC 1321 / FIPS 180-4 pad-then-fold digest of the concatenation, from any reachable '
-                'state of the object (so k messages in a row each get their own digest); the HMAC object equals the RFC 2104 formula '
-                'for every key length and chunking given only those two facts about its digest, instantiated for MD5 and SHA-1; CBC '
-                'decryption inverts encryption over any block cipher with D(E b)=b for every split of the calls, and blocks 2..n do not '
-                'depend on the decryptor IV; key::set_hex decodes exactly even-length hex strings. MD5 T constants, step table, F/G/H/I, '
-                'ROTATE_LEFT/SET macros, SHA-1 left_rotate and round functions, key::from_hex are regenerated from the current source '
-                'and proved equal to the model leafs.'),
-    level_note=('Trusted: Coq kernel + vm_compute; cxx2v/md5consts extractors + clang AST; extraction; the loops/buffering around the leafs '
-                'are hand-modelled and tied by correspondence on the block-boundary grid; SHA-2 and AES are library code (OpenSSL): only '
-                'the wrappers are in /repo, they are checked against Python hashlib/hmac, libcrypto block primitive and the openssl CLI.'),
+    level_text=('Theorems in coq/C16/Props.v (25, closed, no axioms): the bundled MD5 and SHA-1 objects, fed any list of chunks (empty ones '
+                'included; MD5 chunks < 2^31 bytes), read out the RFC 1321 / FIPS 180-4 pad-then-fold digest of the concatenation; k messages '
+                'through one object each get their own digest (reset after readout, from any state); the MD5 step table and IV of the code equal '
+                'the RFC-formula ones; the 80-round SHA-1 function of the code equals FIPS 180-4 6.1.2 written from the standard; the HMAC object '
+                'equals RFC 2104 for every key length, chunking and reuse given only streaming + reset of its digest object, instantiated for MD5 '
+                'and SHA-1; CBC decryption inverts encryption over any block cipher with D(E b)=b for every split of the calls, and only block 1 '
+                'depends on the decryptor IV; key::set_hex decodes exactly even-length hex strings; cbc serves calls iff key and IV were set; '
+                'name dispatch is case-insensitive with digest_size <= block_size. coq/C16/Link.v (22 lemmas): MD5 T constants, F/G/H/I, '
+                'ROTATE_LEFT (translated by cxx2v from the macros of the current src/md5.cpp), the 64 SET lines and md5_init constants '
+                '(text extractor), sha1.h left_rotate and key::from_hex are equal to the model leafs.'),
+    level_note=('Trusted: Coq kernel + vm_compute; cxx2v + clang AST and the md5 step-table text extractor in checks/C16.py; extraction; the '
+                'loops/buffering around the leafs (md5_append/finish, sha1 process_byte/get_digest, hmac, key, cbc wrappers) are hand-modelled '
+                'and tied by correspondence on the block-boundary grid; SHA-2 and AES are library code (OpenSSL): only the wrappers are in /repo, '
+                'they are checked against Python hashlib/hmac, the libcrypto block primitive and the openssl CLI (oracle only).'),
 )
 
-GEN = {}
+GEN = {
+    # src/md5.cpp macros F G H I ROTATE_LEFT T1..T64, expanded in the probe TU harness/C16_md5probe.cpp (it #includes md5.cpp)
+    'Gen_C16_md5': dict(src=os.path.join(vlib.VERIF, 'harness', 'C16_md5probe.cpp'),
+                        incs=vlib.repo_incs() + [os.path.join(vlib.REPO, 'src')],
+                        functions=[('c16_md5_F', 'g_md5_F'), ('c16_md5_G', 'g_md5_G'), ('c16_md5_H', 'g_md5_H'), ('c16_md5_I', 'g_md5_I'),
+                                   ('c16_md5_rotl', 'g_md5_rotl'), ('c16_md5_T', 'g_md5_T')]),
+    # key::from_hex and the left_rotate of private/sha1.h (included by crypto.cpp)
+    'Gen_C16_crypto': dict(src='src/crypto.cpp', functions=[('from_hex', 'g_key_from_hex'), ('left_rotate', 'g_sha1_left_rotate')]),
+}
+
+
+class ExtractError(Exception):
+    pass
+
+
+def _norm(s):
+    return re.sub(r'\s+', '', s)
+
+
+def gen_md5_steps():
+    """Text extractor for the parts of src/md5.cpp that cxx2v cannot translate (pointer code): the 64 SET lines of md5_process
+    in source order with the SET macro in force, the register rotation, the final additions and the constants of md5_init.
+    Writes coq/gen/Gen_C16_md5steps.v; Link.v proves the table equal to the model's md5_steps/md5_abcd0.  Every shape this
+    extractor relies on is checked and reported as a broken tie when it is not found."""
+    src = open(os.path.join(vlib.REPO, 'src', 'md5.cpp')).read()
+    m = re.search(r'\nmd5_process\(md5_state_t \*pms, const md5_byte_t \*data[^)]*\)\s*\{(.*?)\n\}\n', src, re.S)
+    if not m:
+        raise ExtractError('md5_process not found')
+    body = m.group(1)
+    if _norm('md5_word_t a = pms->abcd[0], b = pms->abcd[1], c = pms->abcd[2], d = pms->abcd[3];') not in _norm(body):
+        raise ExtractError('md5_process: initial a,b,c,d = abcd[0..3] not found')
+    if not _norm(body).endswith(_norm('pms->abcd[0] += a; pms->abcd[1] += b; pms->abcd[2] += c; pms->abcd[3] += d;')):
+        raise ExtractError('md5_process: final additions abcd[i] += a,b,c,d not found at the end')
+    if '#define T_MASK ((md5_word_t)~0)' not in src:
+        raise ExtractError('T_MASK definition changed')
+    if _norm('#define ROTATE_LEFT(x, n) (((x) << (n)) | ((x) >> (32 - (n))))') not in _norm(body):
+        raise ExtractError('ROTATE_LEFT definition changed')
+    steps = []
+    fn = None
+    rot = ['a,b,c,d', 'd,a,b,c', 'c,d,a,b', 'b,c,d,a']
+    for line in re.sub(r'/\*.*?\*/', '', body, flags=re.S).replace('\\\n', ' ').split('\n'):
+        l = line.strip()
+        d = re.match(r'#define SET\(a, b, c, d, k, s, Ti\)(.*)$', l)
+        if d:
+            mm = re.fullmatch(r't=a\+([FGHI])\(b,c,d\)\+X\[k\]\+Ti;a=ROTATE_LEFT\(t,s\)\+b', _norm(d.group(1)))
+            if not mm:
+                raise ExtractError('SET macro has an unexpected body: ' + l[:120])
+            fn = 'FGHI'.index(mm.group(1))
+            if fn != len(steps) // 16:
+                raise ExtractError('round function %s used for round %d' % (mm.group(1), len(steps) // 16 + 1))
+            continue
+        if l.startswith('#undef SET'):
+            fn = None
+            continue
+        u = re.match(r'SET\(\s*(\w)\s*,\s*(\w)\s*,\s*(\w)\s*,\s*(\w)\s*,\s*(\d+)\s*,\s*(\d+)\s*,\s*T(\d+)\s*\)\s*;$', l)
+        if u:
+            if fn is None:
+                raise ExtractError('SET line outside a #define SET ... #undef SET region')
+            regs = ','.join(u.group(i) for i in (1, 2, 3, 4))
+            if regs != rot[len(steps) % 4]:
+                raise ExtractError('step %d: registers %s, expected %s' % (len(steps) + 1, regs, rot[len(steps) % 4]))
+            steps.append((fn, int(u.group(5)), int(u.group(6)), int(u.group(7))))
+        elif 'SET' in l and not l.startswith('/*'):
+            raise ExtractError('unrecognised line mentioning SET: ' + l[:120])
+    if len(steps) != 64:
+        raise ExtractError('%d SET lines found, expected 64' % len(steps))
+    mi = re.search(r'\nmd5_init\(md5_state_t \*pms\)\s*\{(.*?)\n\}', src, re.S)
+    if not mi:
+        raise ExtractError('md5_init not found')
+    ib = re.sub(r'/\*.*?\*/', '', mi.group(1), flags=re.S)
+    if _norm('pms->count[0] = pms->count[1] = 0;') not in _norm(ib):
+        raise ExtractError('md5_init: count reset not found')
+    init = []
+    for i in range(4):
+        mm = re.search(r'pms->abcd\[%d\]\s*=\s*(T_MASK\s*\^\s*)?(0x[0-9a-fA-F]+)\s*;' % i, ib)
+        if not mm:
+            raise ExtractError('md5_init: abcd[%d] assignment not recognised' % i)
+        v = int(mm.group(2), 16)
+        init.append(v ^ 0xffffffff if mm.group(1) else v)
+    txt = ('(* GENERATED by checks/C16.py (gen_md5_steps) from src/md5.cpp -- do not edit *)\n'
+           'From Coq Require Import ZArith List.\nImport ListNotations.\nLocal Open Scope Z_scope.\n'
+           '(* (round function 0..3 = F G H I, k, s, index i of Ti) for the 64 SET lines of md5_process in source order *)\n'
+           'Definition g_md5_steps : list (Z * Z * Z * Z) :=\n  [%s].\n'
+           '(* md5_init: abcd[0..3] *)\nDefinition g_md5_abcd0 : list Z := [%s].\n'
+           % ('; '.join('(%d,%d,%d,%d)' % t for t in steps), '; '.join(str(v) for v in init)))
+    with vlib.Lock('gen-Gen_C16_md5steps'):
+        vlib.write_if_changed(os.path.join(vlib.COQ, 'gen', 'Gen_C16_md5steps.v'), txt)
 
 ALGOS = ['md5', 'sha1', 'sha224', 'sha256', 'sha384', 'sha512']
 BLOCK = {'md5': 64, 'sha1': 64, 'sha224': 64, 'sha256': 64, 'sha384': 128, 'sha512': 128}
@@ -89,7 +178,7 @@ def gen_digest_cases(ctx, algos, model_side):
         # around every multiple of the block size up to 4 KiB
         bl = boundary_lengths(B, 4096)
         if model_side and ctx.quick():
-            bl = [n for n in bl if n <= 1100 or n % 1024 < 3 or n % 1024 > 1010 or rng.random() < 0.25]
+            bl = [n for n in bl if n <= 1100 or n % 1024 < 3 or n % 1024 > 1010 or rng.random() < 0.06]
         for n in bl:
             m = rbytes(rng, n)
             cases.append('dg %s %s' % (a, msg_tok([m])))
@@ -253,6 +342,42 @@ def gen_cbc_cases(ctx):
     return cases
 
 
+def gen_big_cases(ctx):
+    """messages long enough for the carries of the length counters: 2^29 bytes = 2^32 bits (md5 count[0] -> count[1],
+    the 32-bit length field the bundled SHA-1 used to write)"""
+    rng = ctx.rng
+    n = 2 ** 29 + rng.randrange(0, 70)
+    cases = ['big md5 %d %d' % (n, 2 ** 24 + rng.randrange(0, 64))]
+    if not ctx.quick():
+        cases.append('big sha1 %d %d' % (2 ** 29 + rng.randrange(0, 70), 2 ** 24 + rng.randrange(0, 64)))
+        cases.append('big sha1 %d %d' % (2 ** 29 - 1, 2 ** 20))
+        cases.append('big md5 %d %d' % (3 * 2 ** 29 + rng.randrange(0, 70), 2 ** 26 + rng.randrange(0, 64)))
+        cases.append('big sha256 %d %d' % (2 ** 29 + rng.randrange(0, 70), 2 ** 24))
+    return cases
+
+
+BIG_PAT = bytes(range(251)) * 4177
+
+
+def big_digest(algo, n):
+    h = hashlib.new(algo)
+    for _ in range(n // len(BIG_PAT)):
+        h.update(BIG_PAT)
+    h.update(BIG_PAT[:n % len(BIG_PAT)])
+    return h.digest()
+
+
+def gen_rekey_cases(ctx):
+    rng = ctx.rng
+    cases = []
+    for bits in (128, 192, 256):
+        for used in (0, 1):
+            for _ in range(ctx.scale(4, 30)):
+                k1, k2, iv = rbytes(rng, bits // 8), rbytes(rng, bits // 8), rbytes(rng, 16)
+                cases.append('rekey %d %s %s %s %s %d' % (bits, hexs(k1), hexs(k2), hexs(iv), hexs(rbytes(rng, 16 * rng.randrange(1, 4))), used))
+    return cases
+
+
 def gen_sess_cases(ctx):
     rng = ctx.rng
     cases = []
@@ -275,7 +400,7 @@ def gen_cases(ctx):
     """returns (cases run on both model and implementation, cases run on the implementation only)"""
     both = (gen_digest_cases(ctx, MODELLED, True) + gen_hmac_cases(ctx, MODELLED, True) + gen_key_cases(ctx)
             + gen_name_cases(ctx) + gen_cbcst_cases(ctx))
-    impl = (gen_digest_cases(ctx, ALGOS, False) + gen_hmac_cases(ctx, ALGOS, False) + gen_cbc_cases(ctx) + gen_sess_cases(ctx))
+    impl = (gen_digest_cases(ctx, ALGOS, False) + gen_hmac_cases(ctx, ALGOS, False) + gen_cbc_cases(ctx) + gen_rekey_cases(ctx) + gen_sess_cases(ctx) + gen_big_cases(ctx))
     rng = ctx.rng
     # long messages (implementation vs independent implementation only)
     for n in ([5000, 65535, 65536, 65537] if ctx.quick() else [5000, 65535, 65536, 65537, 262144, 1048576, 1048577, 3000001]):
@@ -490,6 +615,20 @@ def oracle(case, out):
             REFS_USED['openssl_cli'] += 1
             if r != ciph:
                 return ('cbc-ciphertext-wrong', 'ciphertext differs from `openssl enc -aes-%d-cbc -nopad`' % bits)
+    elif op == 'big':
+        a, n = c[1], int(c[2])
+        if len(o) != 3 or unhex(o[2]) != big_digest(a, n):
+            return ('%s-digest-wrong-long-message' % a,
+                    '%s of %d bytes (>= 2^29: the bit count needs more than 32 bits) fed in chunks of %s: digest differs from the standard function' % (a, n, c[3]))
+    elif op == 'rekey':
+        flags = dict(x.split('=') for x in o[1:])
+        if c[2] != c[3] and flags.get('threw') != '1' and (flags.get('new') != '1' or flags.get('decnew') != '1'):
+            # neither refused nor effective: the object goes on with the key schedule of the FIRST key
+            if c[6] == '1' and flags.get('old') == '1':
+                return ('cbc-set_key-after-use-keeps-old-key',
+                        'aes-%s object: set_key(k2) after an encrypt/decrypt under k1 is accepted, but later calls still use k1 '
+                        '(a fresh object with k2 and the same IV cannot decrypt its output)' % c[1])
+            return ('cbc-second-set_key-wrong', 'second set_key neither refused nor effective: ' + ' '.join(o[1:]))
     elif op == 'sess' and c[1] == 'hmac':
         a, k, p = c[2], unhex(c[3]), unhex(c[4])
         ciph = unhex(o[2])
@@ -543,6 +682,8 @@ def nontrivial(case, out):
         return c[4] != '.'
     if c[0] == 'cbcst':
         return len(c) > 2
+    if c[0] == 'rekey':
+        return c[2] != c[3]
     if c[0] in ('key', 'keyf', 'name'):
         return c[1] != '-'
     return True
@@ -570,6 +711,10 @@ def classify(case, out):
         return 'cbc:aes%s:%s' % (c[1], 'blocks0' if c[4] == '.' else 'blocks1' if len(b''.join(parse_msg(c[4]))) == 16 else 'blocks2+')
     if c[0] == 'sess':
         return 'sess:' + c[1]
+    if c[0] == 'rekey':
+        return 'rekey:used' + c[6]
+    if c[0] == 'big':
+        return 'big:' + c[1]
     if c[0] in ('key', 'keyf'):
         return c[0] + ':' + (out.split()[1] if len(out.split()) > 1 else '?')
     if c[0] == 'name':
@@ -581,11 +726,19 @@ def run(ctx):
     errs = vlib.gen_coq(GEN)
     for n, e in errs:
         ctx.broke('translator cxx2v failed on %s (tie to source broken)' % n, e)
-    res = vlib.coq_props('C16')
+    try:
+        gen_md5_steps()
+    except (ExtractError, OSError) as e:
+        ctx.broke('md5 step-table extractor failed (tie to source broken)', str(e))
+        with vlib.Lock('gen-Gen_C16_md5steps'):
+            vlib.write_if_changed(os.path.join(vlib.COQ, 'gen', 'Gen_C16_md5steps.v'),
+                                  '(* extractor failed: %s *)\nDefinition broken : False := I.\n' % re.sub(r'[^A-Za-z0-9 ,.:=+-]', ' ', str(e)))
+    res = vlib.coq_props('C16', extra_files=['C16/Link.v'])
     ctx.proof(res)
     ctx.coverage['trusted_base'] = [
         'Coq 8.16.1 kernel, vm_compute (table equalities, KAT examples); no native_compute',
         'extraction: ExtrOcamlBasic only, OCaml 4.13.1',
+        'tools/cxx2v.py + clang AST (macro bodies of src/md5.cpp through harness/C16_md5probe.cpp, key::from_hex, left_rotate); gen_md5_steps text extractor (SET lines, md5_init)',
         'harness/C16_crypto.cpp, ocaml/C16_driver.ml, checks/C16.py (generators, oracles using Python hashlib/hmac, libcrypto AES block primitive via ctypes, openssl CLI, NIST SP 800-38A vectors)',
         'hand model of the buffering loops of md5_append / sha1 process_byte / get_digest and of the hmac, cbc, key wrappers (coq/C16/Defs.v)',
         'OpenSSL libcrypto (SHA-2, AES) is outside /repo: only its wrappers are checked']
@@ -609,7 +762,7 @@ def run(ctx):
                             'empty chunks and cuts at the buffer boundary; reuse of one object for 2..4 messages; HMAC keys 0..3 blocks (shorter/equal/longer than the block, '
                             'around the digest size). md5/sha1 cases run on the extracted model too; all six algorithms against hashlib/hmac. key/keyf: all strings '
                             'of length<=3 over a 16-letter alphabet + random hex with faults; cbc: NIST SP 800-38A vectors, 0..256 blocks x 3 key sizes x call splits, '
-                            'compared with CBC built from the raw libcrypto block primitive and the openssl CLI; cbcst: all op sequences of length<=3 over 8 ops; '
+                            'compared with CBC built from the raw libcrypto block primitive and the openssl CLI; cbcst: all op sequences of length<=3 over 8 ops; big: md5 (thorough: sha1, sha256 too) of 2^29+x generated bytes (bit-count carries); rekey: second set_key before/after use; '
                             'sess: hmac_cipher/aes_cipher format, roundtrip, every single-bit forgery. Non-trivial = some message non-empty / some block / non-empty text; '
                             'distinct = distinct case lines.')
     ctx.coverage['exhaustive'] = False
